@@ -17,7 +17,12 @@ use std::io::{BufRead, Write as _};
 
 fn fnv(s: &str) -> u32 { let mut h: u32 = 0x811c9dc5; for b in s.bytes() { h ^= b as u32; h = h.wrapping_mul(0x0100_0193) } h }
 
-fn eclass(e: &Error) -> &'static str {
+fn eclass(e: &Error) -> Cls { Cls(eclass0(e), e.position()) }
+
+/// error class + the position the error itself reports (`-` if none)
+struct Cls(&'static str, Option<usize>);
+
+fn eclass0(e: &Error) -> &'static str {
     if e.is_end_of_input() { "eoi" }
     else if e.is_type_mismatch() { "type" }
     else if e.is_tag_mismatch() { "tag" }
@@ -37,8 +42,12 @@ fn digest<T: Debug>(v: &T) -> u32 { let mut s = String::new(); let _ = write!(s,
 
 struct Out { line: String }
 impl Out {
-    fn rec(&mut self, op: &str, r: Result<u32, &'static str>, pos: usize) {
-        match r { Ok(d) => { let _ = write!(self.line, "{}:o{:08x}@{};", op, d, pos); } Err(c) => { let _ = write!(self.line, "{}:e{}@{};", op, c, pos); } }
+    fn rec(&mut self, op: &str, r: Result<u32, Cls>, pos: usize) {
+        match r {
+            Ok(d) => { let _ = write!(self.line, "{}:o{:08x}@{};", op, d, pos); }
+            Err(Cls(c, Some(at))) => { let _ = write!(self.line, "{}:e{}#{}@{};", op, c, at, pos); }
+            Err(Cls(c, None)) => { let _ = write!(self.line, "{}:e{}#-@{};", op, c, pos); }
+        }
     }
 }
 
@@ -143,7 +152,7 @@ fn run(input: &[u8], o: &mut Out) {
         let mut l = Lim(String::new());
         let r = write!(l, "{}", minicbor::display(input));
         let shown = match l.0.find(" !!! ") { Some(p) => &l.0[.. p + 5], None => &l.0[..] };
-        o.rec("display", if r.is_ok() { Ok(fnv(shown)) } else { Err("fmt") }, shown.len());
+        o.rec("display", if r.is_ok() { Ok(fnv(shown)) } else { Err(Cls("fmt", None)) }, shown.len());
     }
     #[cfg(feature = "std")]
     {
@@ -158,7 +167,7 @@ fn run(input: &[u8], o: &mut Out) {
             let n = minicbor::len(&v);
             let mut buf = [0u8; $cap];
             let r = minicbor::encode(&v, &mut buf[..]);
-            match r { Ok(()) => o.rec($name, Ok(fnv_bytes(&buf[.. n.min($cap)]) ^ n as u32), n), Err(e) => o.rec($name, Err(if e.is_write() { "write" } else if e.is_message() { "msg" } else { "other" }), n) }
+            match r { Ok(()) => o.rec($name, Ok(fnv_bytes(&buf[.. n.min($cap)]) ^ n as u32), n), Err(e) => o.rec($name, Err(Cls(if e.is_write() { "write" } else if e.is_message() { "msg" } else { "other" }, None)), n) }
         }
     }}}
     reenc!("E:i64", i64, 9); reenc!("E:i64/short", i64, 2); reenc!("E:&str", &str, 16); reenc!("E:[u16;3]", [u16; 3], 8); reenc!("E:Option<u8>", Option<u8>, 1);
@@ -181,7 +190,7 @@ fn run(input: &[u8], o: &mut Out) {
             let mut buf = [0u8; $cap];
             let (r, left) = { let mut s: &mut [u8] = &mut buf[..]; let r = { let mut ser = minicbor_serde::Serializer::new(&mut s); serde::Serialize::serialize(&v, &mut ser).map(|_| ()) }; (r.is_ok(), s.len()) };
             let used = $cap - left;
-            if r { o.rec($name, Ok(fnv_bytes(&buf[.. used])), used) } else { o.rec($name, Err("ser"), used) }
+            if r { o.rec($name, Ok(fnv_bytes(&buf[.. used])), used) } else { o.rec($name, Err(Cls("ser", None)), used) }
         }
     }}}
     ss!("Z:SPlain", SPlain, 48); ss!("Z:SEnum", SEnum, 16); ss!("Z:i64", i64, 9); ss!("Z:(u8,bool)", (u8, bool), 3); ss!("Z:Option<u16>", Option<u16>, 2);
@@ -189,16 +198,21 @@ fn run(input: &[u8], o: &mut Out) {
     if let Ok(n) = minicbor::decode::<u32>(input) {
         let mut buf = [0u8; 16];
         let (ok, left) = { let mut s: &mut [u8] = &mut buf[..]; let r = { let mut ser = minicbor_serde::Serializer::new(&mut s); serde::Serialize::serialize(&Disp(n), &mut ser).map(|_| ()) }; (r.is_ok(), s.len()) };
-        if ok { o.rec("Z:collect_str", Ok(fnv_bytes(&buf[.. 16 - left])), 16 - left) } else { o.rec("Z:collect_str", Err("ser"), 16 - left) }
+        if ok { o.rec("Z:collect_str", Ok(fnv_bytes(&buf[.. 16 - left])), 16 - left) } else { o.rec("Z:collect_str", Err(Cls("ser", None)), 16 - left) }
     }
 }
 
 fn fnv_bytes(b: &[u8]) -> u32 { let mut h: u32 = 0x811c9dc5; for x in b { h ^= *x as u32; h = h.wrapping_mul(0x0100_0193) } h }
 
-fn sclass(e: &minicbor_serde::error::DecodeError) -> &'static str {
-    // the bridge's error wraps a decode error; classify through the stable Display prefixes
+fn sclass(e: &minicbor_serde::error::DecodeError) -> Cls {
+    // the bridge's error wraps a decode error; classify through the stable Display prefixes, and take the position it reports
     let mut s = String::new();
     let _ = write!(s, "{}", e);
+    let at = s.find("at position ").and_then(|i| { let t = &s[i + 12 ..]; let n: String = t.chars().take_while(|c| c.is_ascii_digit()).collect(); n.parse::<usize>().ok() });
+    Cls(sclass0(&s), at)
+}
+
+fn sclass0(s: &str) -> &'static str {
     if s.starts_with("end of input") { "eoi" } else if s.starts_with("unexpected type") { "type" } else if s.starts_with("unexpected tag") { "tag" }
     else if s.starts_with("invalid char") { "char" } else if s.starts_with("invalid utf-8") { "utf8" } else if s.contains("overflows target type") { "overflow" }
     else if s.starts_with("decode error") { "msg" } else { "other" }
